@@ -233,6 +233,16 @@ def run_single(case):
     if not (q == p) or (q != p) or hash(q) != hash(mk(ps)):
       return bad("eq:routes", "the same polynomial built through %s must be ==, not != and hash equally" % route,
                  rp, dict(q.terms()), n)
+  # the zero value takes part in == and hash: equal zeros of different types are the same zero
+  zs = [None, 0, 0.0, F(0), False]
+  built = [Poly({k: F(c) for k, c in ps}) if zv is None else Poly({k: F(c) for k, c in ps}, zero=zv) for zv in zs]
+  for a, b in itertools.combinations(range(len(zs)), 2):
+    pa, pb = built[a], built[b]
+    if (pa == pb) and (hash(pa) != hash(pb) or (pa != pb)):
+      return bad("eq:hash-zero", "polynomials that compare equal (zero values equal as numbers) must hash equally "
+                 "and not be !=", {"zeros": [repr(zs[a]), repr(zs[b])]}, [hash(pa), hash(pb), pa != pb], n)
+    if (pa == pb) == (pa != pb):
+      return bad("eq:exclusive", "exactly one of == and != must hold", None, [pa == pb, pa != pb], n)
   # order / values
   if not has_neg(ps):
     exp_order = max(rp) if rp else 0
